@@ -1,4 +1,173 @@
-(* C09 - placeholder while the proofs are being written *)
-From LV Require Import Conf.ConfModel.
-Theorem C09_placeholder : True. Proof. exact I. Qed.
-Print Assumptions C09_placeholder.
+(* C09 - the config parser delivers every line once, in order, to the innermost open context.
+   Statements only, each closed by `exact`, followed by Print Assumptions; non-vacuity Examples at the end.
+   Model: Conf/ConfModel.v (spifconf_parse and the table functions of src/conf.c, after the repairs listed in
+   checks/c09.py).  Specification: Conf/ConfSpec.v (a walk over line lists with a stack of (context, state)).
+   `R` (Conf/ConfTrace.v) relates a specification state to a state of the subsystem: the context table holds the
+   registered contexts, the context-state stack is the specification's stack bottom-up, the open files hold the
+   remaining work list, every table index is below its capacity. *)
+From LV Require Import Base.Buf Conf.ConfModel Conf.ConfSpec Conf.ConfInst Conf.ConfTables Conf.ConfLine Conf.ConfSafe.
+From LV Require Import Conf.ConfLife Conf.ConfTrace Conf.ConfInstProofs Conf.ConfStacks.
+Local Open Scope Z_scope.
+
+(* From spifconf_init_subsystem through any (at most 255) registrations to spifconf_parse: for every tree of
+   well-formed config files, every handler oracle and every expansion, the parser's result - the trace of
+   handler calls (context, Begin | End | text, state in, state out), the return value - is the specification's;
+   on return the file stack is empty, every file opened is closed, the context stack is the specification's
+   stack and the variable store the specification's.  Nesting beyond 255 (TooDeep) and %preproc
+   (OutOfGrammar) are outside the quantifier. *)
+Theorem C09_conf_trace :
+  forall (W V : Type) (handler : Z -> harg -> Z -> W -> Z * W)
+         (expand : list Z -> V -> list Z * V * list (list Z)) (preproc_out fs : list Z -> option (list Z))
+         (progname : list Z) (fsl : list Z -> option (list (list Z) * bool)),
+    (forall n content, fs n = Some content -> Forall is_byte content) ->
+    expand_fits V expand ->
+    expand_keeps_include V expand ->
+    (forall name,
+        match fsl name with
+        | Some (ls, nl) => exists hdr, wf_hdr progname hdr /\ fs name = Some (render hdr ls nl) /\ Forall wf_line ls
+        | None => open_file fs progname (Some name) = Ok None
+        end) ->
+    forall (c0 : conf V) (w : W) (regs : list (list Z * Z)) (fuel : nat) (name : list Z),
+      Z.of_nat (length regs) <= 255 ->
+      exists c1 c2,
+        init_subsystem V c0 = Ok c1 /\
+        reg_all V c1 regs = Ok c2 /\
+        (let s2 := {| s_ctxs := sreg_all [(s_null, HParseNull)] regs; s_stack := [(0, 0)];
+                      s_vars := vars V c0; s_world := w |} in
+         match sparse W V handler expand fsl fuel s2 name with
+         | Done (s', evs, ret) =>
+           exists c', parse W V handler expand preproc_out fs progname fuel c2 w name = Ok (c', s_world W V s', evs, ret) /\
+                      t_idx (ftb V c') = 0 /\ nopen V c' = nopen V c0 /\
+                      stack_rel (cst V c') (s_stack W V s') /\ vars V c' = s_vars W V s'
+         | NoFuel => parse W V handler expand preproc_out fs progname fuel c2 w name = Fault Out_of_fuel
+         | _ => True
+         end).
+Proof. exact conf_trace_from_init. Qed.
+Print Assumptions C09_conf_trace.
+
+(* The same for any state related to a specification state (for instance after earlier parses that left
+   blocks open): the relation is kept, so the correspondence holds for every sequence of parses. *)
+Theorem C09_conf_trace_any_state :
+  forall (W V : Type) (handler : Z -> harg -> Z -> W -> Z * W)
+         (expand : list Z -> V -> list Z * V * list (list Z)) (preproc_out fs : list Z -> option (list Z))
+         (progname : list Z) (fsl : list Z -> option (list (list Z) * bool)),
+    (forall n content, fs n = Some content -> Forall is_byte content) ->
+    expand_fits V expand ->
+    expand_keeps_include V expand ->
+    (forall name,
+        match fsl name with
+        | Some (ls, nl) => exists hdr, wf_hdr progname hdr /\ fs name = Some (render hdr ls nl) /\ Forall wf_line ls
+        | None => open_file fs progname (Some name) = Ok None
+        end) ->
+    forall (n0 hw : Z) (fuel : nat) (s : sstate W V) (c : conf V) (name : list Z),
+      R W V n0 hw s c [] ->
+      t_idx (ftb V c) = 0 ->
+      match sparse W V handler expand fsl fuel s name with
+      | Done (s', evs, ret) =>
+        exists c', parse W V handler expand preproc_out fs progname fuel c (s_world W V s) name = Ok (c', s_world W V s', evs, ret) /\
+                   R W V n0 hw s' c' [] /\ t_idx (ftb V c') = 0
+      | NoFuel => parse W V handler expand preproc_out fs progname fuel c (s_world W V s) name = Fault Out_of_fuel
+      | _ => True
+      end.
+Proof. exact conf_trace. Qed.
+Print Assumptions C09_conf_trace_any_state.
+
+(* registering a context is the specification's registration ("null" replaces entry 0 and returns 0, any
+   other name is appended and returns its position) *)
+Theorem C09_register_context :
+  forall (W V : Type) (n0 hw : Z) (s : sstate W V) (c : conf V) (name : list Z) (h : Z),
+    R W V n0 hw s c [] ->
+    Z.of_nat (length (s_ctxs W V s)) <= 255 ->
+    let '(ctxs', id') := sregister (s_ctxs W V s) name h in
+    exists c', register_context V c name h = Ok (c', id') /\
+               R W V n0 (Z.of_nat (length ctxs'))
+                 {| s_ctxs := ctxs'; s_stack := s_stack W V s; s_vars := s_vars W V s; s_world := s_world W V s |} c' [] /\
+               bit V c' = bit V c.
+Proof. exact register_R. Qed.
+Print Assumptions C09_register_context.
+
+(* when parsing returns all files are closed, the file stack is where it started, and the context stack is
+   deeper by exactly the number of Begin calls minus the number of End calls of the trace - back at its
+   entry value for input whose blocks are balanced *)
+Theorem C09_conf_stacks_restored :
+  forall (W V : Type) (handler : Z -> harg -> Z -> W -> Z * W)
+         (expand : list Z -> V -> list Z * V * list (list Z)) (preproc_out fs : list Z -> option (list Z))
+         (progname : list Z) (fsl : list Z -> option (list (list Z) * bool)),
+    (forall n content, fs n = Some content -> Forall is_byte content) ->
+    expand_fits V expand ->
+    expand_keeps_include V expand ->
+    (forall name,
+        match fsl name with
+        | Some (ls, nl) => exists hdr, wf_hdr progname hdr /\ fs name = Some (render hdr ls nl) /\ Forall wf_line ls
+        | None => open_file fs progname (Some name) = Ok None
+        end) ->
+    forall n0 hw fuel (s : sstate W V) (c : conf V) name s' evs ret,
+      R W V n0 hw s c [] -> t_idx (ftb V c) = 0 ->
+      sparse W V handler expand fsl fuel s name = Done (s', evs, ret) ->
+      exists c', parse W V handler expand preproc_out fs progname fuel c (s_world W V s) name = Ok (c', s_world W V s', evs, ret) /\
+                 t_idx (ftb V c') = t_idx (ftb V c) /\ nopen V c' = nopen V c /\
+                 t_idx (cst V c') = t_idx (cst V c) + begins evs - ends evs.
+Proof. exact conf_stacks_restored. Qed.
+Print Assumptions C09_conf_stacks_restored.
+
+(* the arithmetic of the 8-bit indices and their capacities, with the widths and initial capacities found in
+   the source tree: after any number of pushes (the index wraps to 0 after 2^8 - 1) the index is below the
+   capacity, and the capacity never passes 2^9 - across every doubling *)
+Theorem C09_conf_index_below_capacity : forall n : nat,
+  (let '(i, c) := bump_n ctx_idx_bits ctx_cnt_bits n 0 ctx_cnt_init in 0 <= i < c /\ c <= 2 ^ (ctx_idx_bits + 1)) /\
+  (let '(i, c) := bump_n ctx_state_idx_bits ctx_state_cnt_bits n 0 ctx_state_cnt_init in 0 <= i < c /\ c <= 2 ^ (ctx_state_idx_bits + 1)) /\
+  (let '(i, c) := bump_n fstate_idx_bits fstate_cnt_bits n 0 fstate_cnt_init in 0 <= i < c /\ c <= 2 ^ (fstate_idx_bits + 1)) /\
+  (let '(i, c) := bump_n builtin_idx_bits builtin_cnt_bits n 0 builtin_cnt_init in 0 <= i < c /\ c <= 2 ^ (builtin_idx_bits + 1)).
+Proof. exact tables_never_wrap. Qed.
+Print Assumptions C09_conf_index_below_capacity.
+
+(* in the model a push is exactly this arithmetic followed by a checked store: the store succeeds, the block
+   is as long as the capacity says, and no other slot below the old capacity changes *)
+Theorem C09_push_in_bounds :
+  forall (A : Type) (ib cb : Z) (t : table A) (a : A),
+    0 <= ib -> ib + 1 < cb -> tab_ok ib t ->
+    let t1 := t_bump ib cb t in
+    exists t', t_set t1 (t_idx t1) a = Ok t' /\ tab_ok ib t' /\
+               t_idx t' = (t_idx t + 1) mod 2 ^ ib /\ t_cnt t <= t_cnt t' /\
+               slot t' (t_idx t') = Some (Some a) /\
+               (forall j, j <> t_idx t' -> 0 <= j < t_cnt t -> slot t' j = slot t j) /\
+               blk (t_mem t1) = blk (t_mem t).
+Proof. exact @t_bump_store. Qed.
+Print Assumptions C09_push_in_bounds.
+
+(* ---------------- non-vacuity ---------------- *)
+(* the assumptions about the expansion are satisfiable (the identity satisfies them) *)
+Example C09_expand_assumptions_satisfiable :
+  expand_fits unit (@expand_id unit) /\ expand_keeps_include unit (@expand_id unit).
+Proof. split; [apply expand_id_fits|apply expand_id_keeps]. Qed.
+
+(* a run of the model: file "a" = "<lv-1.0>\nbegin foo\n x y \nend\nz" (no final newline), context "foo"
+   registered with handler 0; the handler sees Begin, "x y", End with the states threaded; the last line goes
+   to the null context *)
+Definition ex_file : list Z :=
+  [60;108;118;45;49;46;48;62;10; 98;101;103;105;110;32;102;111;111;10; 32;120;32;121;32;10; 101;110;100;10; 122].
+Example C09_sample_run :
+  match irun [([97], ex_file)] true [108;118] [OInit; ORegCtx [102;111;111] 0; OParse 100 [97]] with
+  | Ok (_, [RUnit; RId 1; RParse evs true]) =>
+    evs = [EvCall (HUser 0) HBegin 0 1; EvCall (HUser 0) (HText [120;32;121]) 1 2; EvCall (HUser 0) HEnd 2 3;
+           EvCall HParseNull (HText [122]) 3 3]
+  | _ => False
+  end.
+Proof. vm_compute. reflexivity. Qed.
+
+(* the specification on the same input (lines after the header, no final newline) gives the same trace *)
+Example C09_sample_spec :
+  match sparse Z vstore fresh_handler expand_simple
+          (fun n => if list_eqb n [97] then Some ([[98;101;103;105;110;32;102;111;111]; [32;120;32;121;32]; [101;110;100]; [122]], false) else None)
+          100 {| s_ctxs := [(s_null, HParseNull); ([102;111;111], HUser 0)]; s_stack := [(0, 0)]; s_vars := []; s_world := 0 |} [97] with
+  | Done (_, evs, true) =>
+    evs = [EvCall (HUser 0) HBegin 0 1; EvCall (HUser 0) (HText [120;32;121]) 1 2; EvCall (HUser 0) HEnd 2 3;
+           EvCall HParseNull (HText [122]) 3 3]
+  | _ => False
+  end.
+Proof. vm_compute. reflexivity. Qed.
+
+(* the relation R holds after init (so the hypotheses of the general theorems are reachable) *)
+Example C09_R_reachable : forall (c : conf unit) (w : unit),
+  exists c', init_subsystem unit c = Ok c' /\ R unit unit (nopen unit c) 1 (sinit unit unit (vars unit c) w) c' [] /\ binv (bit unit c').
+Proof. exact (init_R unit unit). Qed.
